@@ -108,6 +108,8 @@ class Scenario:
         I, Ic = self._impl(impl)
         R = ref if isinstance(ref, np.ndarray) else np.array([ref], dtype=object)
         R = as_sym_arr(R)
+        if I.ndim == 0 and R.shape == (1,):
+            R = R.reshape(())
         if I.shape != R.shape:
             try:
                 R = np.broadcast_to(R, I.shape)
